@@ -17,6 +17,12 @@ type Ev struct {
 	Out    []string `json:"out,omitempty"`  // output lines printed in reaction to the line
 	Text   string   `json:"text,omitempty"` // dialogue text printed after Out (no prompt follows) when Resp != ""
 	Hold   int      `json:"hold,omitempty"` // trailing bytes of the reaction withheld until the next write
+	// Burst: unsolicited lines (console log messages) the device prints when the first byte of this
+	// event's input arrives, in front of the echo: bytes delivered during the event's echo phase.
+	Burst []string `json:"burst,omitempty"`
+	// LongTail: Text is a long notice whose first line carries the expected response; the rest is
+	// still arriving (or withheld) while the next input is typed.
+	LongTail bool `json:"long_tail,omitempty"`
 }
 
 // Cmd is a plain command (SendCommand / Channel.SendInput).
@@ -97,13 +103,23 @@ func norm(b string) string { return strings.ReplaceAll(b, "\r", "") }
 // of bytes of the device's reaction that must have been delivered before the library can have seen
 // the expected response.
 func firstMatch(raw string, res []*regexp.Regexp) int {
+	// The patterns of this package match within a few short lines (unique token texts, prompts), so a
+	// prefix is judged on its last whole lines covering at least matchWindow bytes: the window always
+	// starts at a line start, hence "^" and "$" mean the same as on the whole prefix.
+	const matchWindow = 400
+	n := norm(raw)
+	np := 0 // length of the normalised prefix
 	for p := 1; p <= len(raw); p++ {
 		if raw[p-1] == '\r' {
 			continue // the normalised prefix did not change
 		}
-		n := norm(raw[:p])
+		np++
+		w := 0
+		if np > matchWindow {
+			w = strings.LastIndexByte(n[:np-matchWindow], '\n') + 1
+		}
 		for _, re := range res {
-			if re.MatchString(n) {
+			if re.MatchString(n[w:np]) {
 				return p
 			}
 		}
@@ -200,7 +216,9 @@ func echoUnambiguous(input, stale string) bool {
 // respFamily returns dialogue text and the regexp an event expects, built around a token that is
 // unique in the whole session, so that the regexp can match nowhere but in this text.
 func respFamily(r *rand.Rand, tok, nl string) (text, re string) {
-	switch r.Intn(6) {
+	switch r.Intn(7) {
+	case 6:
+		return tok + " notice follows" + nl + "Continue [y/n]: ", tok // may be expanded into a long notice (LongTail)
 	case 0:
 		return "Confirm " + tok + " [y/n]: ", tok // matches in the middle of the text: a tail stays undelivered
 	case 1:
@@ -278,7 +296,7 @@ func (d *Desc) echoesUnambiguous() bool {
 	}
 	for k := 0; k < d.Sent(); k++ {
 		e := d.Events[k]
-		if !e.Hidden && e.Resp != "" && !echoUnambiguous(e.Input, norm(base+prev)) {
+		if !e.Hidden && e.Resp != "" && !echoUnambiguous(e.Input, norm(base+prev+d.burst(k))) {
 			return false
 		}
 		prev = d.reaction(k)
@@ -355,6 +373,7 @@ func genDialogueOnce(r *rand.Rand, plain bool) Desc {
 		if withResp {
 			tok := fmt.Sprintf("zz%d%s", k, randStr(r, "abcdefghijklmnopqrstuvwxy", 3))
 			e.Text, e.Resp = respFamily(r, tok, d.NL)
+			e.LongTail = e.Resp == tok && strings.Contains(e.Text, "notice follows")
 		}
 		d.Events = append(d.Events, e)
 	}
@@ -383,30 +402,6 @@ func genDialogueOnce(r *rand.Rand, plain bool) Desc {
 	}
 	for i := 0; i < nw; i++ {
 		d.Warm = append(d.Warm, genCmd(r, term(), d.Prompt))
-	}
-	// holds: only bytes behind the match point may be withheld
-	sent := d.Sent()
-	for k := 0; k < n; k++ {
-		e := &d.Events[k]
-		region, res := d.reaction(k), append([]*regexp.Regexp{}, compRes...)
-		if e.Resp != "" {
-			res = append(res, regexp.MustCompile(e.Resp))
-		} else {
-			res = append(res, promptRe)
-		}
-		p := firstMatch(region, res)
-		tailLen := len(d.question(k))
-		if d.FinishAt == k {
-			tailLen = len(d.Prompt) + len(d.CompText) + len(d.NL)
-		}
-		if p < 0 || p <= len(region)-tailLen {
-			// generator precondition (by brute force with the session's regexps): nothing before the
-			// device's question / prompt / completion text ends the read
-			panic(fmt.Sprintf("c12 generator: reaction to event %d matches at %d: %q", k, p, region))
-		}
-		if slack := len(region) - p; slack > 0 && r.Intn(2) == 0 && k < sent {
-			e.Hold = 1 + r.Intn(slack)
-		}
 	}
 	// post commands only if the device is back at a command prompt
 	if d.endsAtPrompt() && !d.Fresh {
@@ -438,9 +433,83 @@ func genDialogueOnce(r *rand.Rand, plain bool) Desc {
 			longest = l
 		}
 	}
+	if longest < 90 {
+		longest = 90 // burst / notice lines
+	}
 	d.PSD = 1000
 	if r.Intn(3) == 0 {
 		d.PSD = 2*longest + 16 + r.Intn(64)
+	}
+	// echo-phase traffic: more than the search window (max(depth, 2*len(input))) delivered between
+	// the write of a visible, response-expecting event's input and the end of its echo -- as a burst
+	// of log lines in front of the echo, or as the tail of the previous event's long notice
+	budget := 3000
+	if (d.Seg.Mode == "fixed" || d.Seg.Mode == "geom") && d.Seg.Size <= 3 {
+		budget = 800 // byte-wise delivery: keep the dialogue well inside the operation timeout
+	}
+	fill := func(min int) []string {
+		var ls []string
+		for t := 0; t < min; {
+			l := randStr(r, outAlpha, 20+r.Intn(60))
+			ls = append(ls, l)
+			t += len(l) + len(d.NL)
+		}
+		return ls
+	}
+	for k := 0; k < d.Sent(); k++ {
+		e := &d.Events[k]
+		if e.Hidden || e.Resp == "" {
+			continue
+		}
+		depth := d.PSD
+		if 2*len(e.Input) > depth {
+			depth = 2 * len(e.Input)
+		}
+		size := depth + 1 + r.Intn(depth/2+1)
+		if r.Intn(4) == 0 {
+			size = depth/2 + r.Intn(depth/2+1) // stays inside the window
+		}
+		if size > budget {
+			continue
+		}
+		prevTail := k > 0 && d.Events[k-1].LongTail && d.FinishAt != k-1
+		switch x := r.Intn(6); {
+		case x == 0:
+			e.Burst = fill(size)
+			budget -= size
+		case x == 1 && prevTail:
+			p := &d.Events[k-1]
+			i := strings.Index(p.Text, d.NL) + len(d.NL)
+			p.Text = p.Text[:i] + lines(fill(size), d.NL) + p.Text[i:]
+			budget -= size
+		}
+	}
+	for k := range d.Events {
+		d.Events[k].LongTail = d.Events[k].LongTail && strings.Count(d.Events[k].Text, d.NL) > 1
+	}
+	// holds: only bytes behind the match point may be withheld
+	sent := d.Sent()
+	for k := 0; k < n; k++ {
+		e := &d.Events[k]
+		region, res := d.reaction(k), append([]*regexp.Regexp{}, compRes...)
+		if e.Resp != "" {
+			res = append(res, regexp.MustCompile(e.Resp))
+		} else {
+			res = append(res, promptRe)
+		}
+		p := firstMatch(region, res)
+		tailLen := len(d.question(k))
+		if d.FinishAt == k {
+			tailLen = len(d.Prompt) + len(d.CompText) + len(d.NL)
+		}
+		if p < 0 || p <= len(region)-tailLen {
+			// generator precondition (by brute force with the session's regexps): nothing before the
+			// device's question / prompt / completion text ends the read
+			panic(fmt.Sprintf("c12 generator: reaction to event %d matches at %d: %q", k, p, region))
+		}
+		if slack := len(region) - p; slack > 0 && r.Intn(2) == 0 && k < sent {
+			e.Hold = 1 + r.Intn(slack)
+		}
 	}
 	return d
 }
@@ -473,6 +542,14 @@ func (d *Desc) question(k int) string {
 	return d.Prompt
 }
 
+// burst is what the device prints in front of event k's echo.
+func (d *Desc) burst(k int) string {
+	if len(d.Events[k].Burst) == 0 {
+		return ""
+	}
+	return d.NL + lines(d.Events[k].Burst, d.NL)
+}
+
 func lines(out []string, nl string) string {
 	var b strings.Builder
 	for _, o := range out {
@@ -487,6 +564,7 @@ func lines(out []string, nl string) string {
 func (d *Desc) reaction(k int) string {
 	e := d.Events[k]
 	var b strings.Builder
+	b.WriteString(d.burst(k))
 	if !e.Hidden {
 		b.WriteString(e.Input)
 	}
